@@ -49,6 +49,14 @@ func Build(ctx context.Context, s EngineSpec) (*engine.Engine, []uci.Option) {
 		if s.Book {
 			opts = append(opts, uci.UseBook(bernstein.NewBook(), s.Seed))
 		}
+	case "linebook":
+		// the generic engine with a book built from lines (engine.NewBook) that end in en passant captures
+		root = search.AlphaBeta{Eval: search.Leaf{Eval: eval.Material{}}}
+		bk, err := engine.NewBook(EpLines())
+		if err != nil {
+			panic(err)
+		}
+		opts = append(opts, uci.UseBook(bk, s.Seed))
 	default:
 		panic("unknown engine " + s.Name)
 	}
@@ -172,4 +180,29 @@ func (s *Session) Quit(timeout time.Duration) bool {
 // CloseInput ends the input stream (EOF).
 func (s *Session) CloseInput() {
 	close(s.in)
+}
+
+// EpLines are opening lines that end in an en passant capture, for both colours and every file pair.
+func EpLines() []engine.Line {
+	files := "abcdefgh"
+	var lines []engine.Line
+	for f := 0; f < 8; f++ {
+		for _, g := range []int{f - 1, f + 1} {
+			if g < 0 || g > 7 {
+				continue
+			}
+			wait := 0
+			for wait == f || wait == g {
+				wait++
+			}
+			wait2 := 7
+			for wait2 == f || wait2 == g {
+				wait2--
+			}
+			F, G, W1, W2 := string(files[f]), string(files[g]), string(files[wait]), string(files[wait2])
+			lines = append(lines, engine.Line{F + "2" + F + "4", W1 + "7" + W1 + "6", F + "4" + F + "5", G + "7" + G + "5", F + "5" + G + "6"})
+			lines = append(lines, engine.Line{W1 + "2" + W1 + "3", F + "7" + F + "5", W2 + "2" + W2 + "3", F + "5" + F + "4", G + "2" + G + "4", F + "4" + G + "3"})
+		}
+	}
+	return lines
 }
